@@ -227,7 +227,8 @@ def check_program(case):
                 elif kind == "fabs":
                     r = f.abs
                 elif kind == "diff":
-                    r = f.diff(dims[a % cur_nd], order=1 + b % 2)
+                    # the documented keyword restrict2valid=False changes the stencils, not the validity of the result
+                    r = f.diff(dims[a % cur_nd], order=1 + b % 2, **({"restrict2valid": False} if (a + b) % 3 == 0 else {}))
                 elif kind == "grad":
                     if f.nvdim != 1:
                         continue
@@ -335,6 +336,14 @@ def check_setter(case):
             tag("norm-" + nt)
         elif nt == "complex":
             arr = arr * (1 + 0j) if k == 1 else arr.astype(complex) * np.exp(1j * np.arange(k))
+            if k >= 2:
+                # circularly polarised cells (1, i, 0, ...): the squares of the components cancel, the length is sqrt(2)
+                srng = np.random.default_rng(case["seed"] + 11)
+                circ = np.zeros(k, dtype=complex)
+                circ[0], circ[1] = 1.0, 1j
+                pick = srng.random(n) < 0.3
+                arr[pick] = circ * srng.choice([1.0, 3.0, 1e-3], size=n)[pick][..., np.newaxis]
+                model = np.sqrt(np.sum(np.abs(arr) ** 2, axis=-1)) > 1e-8
             tag("norm-complex")
     elif form == "bool-array":
         val, model = M.copy(), M
